@@ -409,6 +409,10 @@ func c11Cases(rnd *Rand) []c11Case {
 	add("n, err = find2(\"p\"); [n.Label(), err]", "find2("+p("p")+") => "+p([]interface{}{"found", nil}), "(pointer, nil error)")
 	add("match2(\"?\")", "match2("+p("?")+") => "+p([]interface{}{[]string(nil), map[string]int64(nil), false}), "nil slice and nil map among several results keep their types")
 	add("names, m, ok = match2(\"?\"); [len(names), len(m), ok]", "match2("+p("?")+") => "+p([]interface{}{int64(0), int64(0), false}), "a returned nil slice / map has length 0")
+	add("fixed2([nil, \"x\"]...)", "fixed2("+p(int64(0))+", "+p("x")+") => "+p(int64(0)), "nil in a spread list arrives as the zero value of the parameter type")
+	add("fixed2([3, nil]...)", "fixed2("+p(int64(3))+", "+p("")+") => "+p(int64(3)), "nil in a spread list arrives as the zero value (string parameter)")
+	add("fixed3([nil, 1, nil]...)", "fixed3("+p(nil)+", "+p(int64(1))+", "+p(nil)+") => "+p(nil), "nil in a spread list into interface{} parameters arrives as nil")
+	add("fixed2(nil, nil)", "fixed2("+p(int64(0))+", "+p("")+") => "+p(int64(0)), "nil arguments of a plain call arrive as zero values")
 	add("reterr(false)", "reterr("+p(false)+") => "+p([]interface{}{int64(1), nil}), "(value, nil error)")
 	add("r = reterr(true); [r[0], r[1] != nil]", "reterr("+p(true)+") => "+p([]interface{}{int64(0), true}), "(value, error) comes back as a pair")
 	// 4. Go values through the environment, containers, identity
